@@ -2,7 +2,6 @@
    satisfiable: a concrete, non-trivial catalogue case (2.5 inch -> centimetre)
    meets every premise of convert_magnitude, so the theorem is not vacuous. *)
 From Coq Require Import Reals ZArith Lra Lia String.
-From Interval Require Import Tactic.
 From Flocq Require Import Core IEEE754.BinarySingleNaN IEEE754.Binary IEEE754.Bits.
 From QV Require Import Rt.Prelude Rt.Amount Rt.Quantity Macro.Defs Gen.Prefixes Gen.Catalogue Gen.Kernels Macro.Inst
   Amount.F64 Amount.F64Acc Proofs.Laws Proofs.Kernel Proofs.Instances Proofs.AccF64.
@@ -20,19 +19,35 @@ Lemma example_units : gen_name cat_Length_gen inch_ix = us "Inch"%string /\ gen_
   u_scale LengthF inch_ix = s_inch /\ u_scale LengthF cm_ix = s_cm.
 Proof. repeat split; vm_compute; reflexivity. Qed.
 
-Lemma bpow_neg (e : Z) : (e < 0)%Z -> bpow radix2 e = / IZR (2 ^ (- e)).
-Proof. intros H. destruct e as [|p|p]; try lia. cbn [bpow Z.opp]. f_equal. Qed.
+(** a magnitude between 2^-10 and 2^10 is well inside the normal range *)
+Lemma normal_mid r : / 1024 <= Rabs r <= 1024 -> normal r.
+Proof.
+  intros [Hlo Hhi]. unfold normal, tiny, huge, u64.
+  assert (T : bpow radix2 (-1022) <= / 1024).
+  { replace (/ 1024) with (bpow radix2 (-10)) by (change (bpow radix2 (-10)) with (/ IZR (Z.pow_pos 2 10)); replace (Z.pow_pos 2 10) with 1024%Z by reflexivity; reflexivity). apply bpow_le. lia. }
+  assert (U : 2048 < bpow radix2 1024).
+  { replace 2048 with (bpow radix2 11) by (change (bpow radix2 11) with (IZR (Z.pow_pos 2 11)); replace (Z.pow_pos 2 11) with 2048%Z by reflexivity; reflexivity). apply bpow_lt. lia. }
+  assert (V : / 2 * bpow radix2 (-52) <= 1).
+  { assert (H : bpow radix2 (-52) <= bpow radix2 0) by (apply bpow_le; lia). change (bpow radix2 0) with 1 in H. lra. }
+  pose proof (Rabs_pos r) as P. change (-53 + 1)%Z with (-52)%Z.
+  assert (W : 0 <= bpow radix2 (-52)) by apply bpow_ge_0.
+  set (t := bpow radix2 (-1022)) in *. set (b := bpow radix2 1024) in *. set (x := bpow radix2 (-52)) in *.
+  clearbody t b x. split; [lra|]. nra.
+Qed.
 
-Lemma bpow_pos (e : Z) : (0 <= e)%Z -> bpow radix2 e = IZR (2 ^ e).
-Proof. intros H. destruct e as [|p|p]; try lia; reflexivity. Qed.
+(** the values of the two scales and of the amount as fractions *)
+Lemma s_inch_val : B2R 53 1024 s_inch = 7321051554253478 / 288230376151711744.
+Proof. unfold s_inch. cbn [B2R]. unfold F2R. cbn [Fnum Fexp cond_Zopp bpow Z.pow_pos Pos.iter radix_val radix2 Z.mul Pos.mul]. lra. Qed.
+Lemma s_cm_val : B2R 53 1024 s_cm = 5764607523034235 / 576460752303423488.
+Proof. unfold s_cm. cbn [B2R]. unfold F2R. cbn [Fnum Fexp cond_Zopp bpow Z.pow_pos Pos.iter radix_val radix2 Z.mul Pos.mul]. lra. Qed.
+Lemma amount25_val : B2R 53 1024 amount25 = 5 / 2.
+Proof. unfold amount25. cbn [B2R]. unfold F2R. cbn [Fnum Fexp cond_Zopp bpow Z.pow_pos Pos.iter radix_val radix2 Z.mul Pos.mul]. lra. Qed.
 
-Ltac concrete :=
-  unfold normal, tiny, huge, u64, s_inch, s_cm, amount25; cbn [B2R F2R Fnum Fexp cond_Zopp];
-  rewrite ?bpow_neg by lia; rewrite ?bpow_pos by lia;
-  cbn [Z.opp Z.add Z.pos_sub Pos.pred_double].
+Lemma example_ratio_val : B2R 53 1024 s_inch / B2R 53 1024 s_cm = 14642103108506956 / 5764607523034235.
+Proof. rewrite s_inch_val, s_cm_val. field. Qed.
 
 Lemma example_ratio_normal : normal (B2R 53 1024 s_inch / B2R 53 1024 s_cm).
-Proof. concrete. split; interval with (i_prec 80). Qed.
+Proof. apply normal_mid. rewrite example_ratio_val. rewrite Rabs_pos_eq by lra. lra. Qed.
 
 (** all premises of convert_magnitude for 2.5 in -> cm *)
 Theorem convert_magnitude_premises_hold :
@@ -46,11 +61,14 @@ Proof.
   assert (Ea : q_amount LengthF q_example = amount25) by reflexivity.
   destruct example_units as (_ & _ & Ei & Ec). rewrite Eu, Ea, Ei, Ec.
   split; [discriminate|]. split; [vm_compute; tauto|]. split; [reflexivity|]. split; [reflexivity|]. split; [reflexivity|].
-  assert (Hc0 : B2R 53 1024 s_cm <> 0).
-  { concrete. apply Rgt_not_eq. interval with (i_prec 80). }
+  assert (Hc0 : B2R 53 1024 s_cm <> 0) by (rewrite s_cm_val; lra).
   split; [exact Hc0|]. split; [exact example_ratio_normal|].
   destruct example_ratio_normal as [N N'].
   destruct (f64_div_rel s_inch s_cm eq_refl eq_refl Hc0 N N') as (d & Hd & _ & ->).
-  apply Rabs_le_inv in Hd. revert Hd. concrete. intros Hd.
-  split; interval with (i_prec 80).
+  apply Rabs_le_inv in Hd. rewrite example_ratio_val, amount25_val.
+  assert (Hu : u64 <= / 2).
+  { unfold u64. change (-53 + 1)%Z with (-52)%Z. assert (H : bpow radix2 (-52) <= bpow radix2 0) by (apply bpow_le; lia). change (bpow radix2 0) with 1 in H.
+    set (x := bpow radix2 (-52)) in *. clearbody x. lra. }
+  pose proof u64_pos as Hu0.
+  apply normal_mid. rewrite Rabs_pos_eq by nra. split; nra.
 Qed.
